@@ -9,7 +9,7 @@
 (* incomplete tail.                                                           *)
 EXTENDS Wal, TraceBase
 
-tvars == <<files, buf, cur, seq, l, sid, used, failed>>
+tvars == <<files, buf, cur, seq, sync, l, sid, used, failed>>
 
 Layout(fs) == [i \in DOMAIN fs |-> <<fs[i].name, FileSize(fs[i])>>]
 
@@ -27,9 +27,10 @@ Obs == \/ ObsIdeal(Ev.obs) /\ Same
 
 TInit == WInit /\ TBInit
 
-T_Reset == ResetBook /\ files' = <<>> /\ buf' = <<>> /\ cur' = 0 /\ seq' = 0
-T_Fail == FailBook /\ files' = <<>> /\ buf' = <<>> /\ cur' = 0 /\ seq' = 0
+T_Reset == ResetBook /\ files' = <<>> /\ buf' = <<>> /\ cur' = 0 /\ seq' = 0 /\ sync' = FALSE
+T_Fail == FailBook /\ files' = <<>> /\ buf' = <<>> /\ cur' = 0 /\ seq' = 0 /\ sync' = FALSE
 T_Append == IsEv("Append") /\ AppendNode(Ev.tok, Ev.res) /\ Obs
+T_SetSync == IsEv("SetSync") /\ SetSync(Ev.on) /\ Obs
 T_Flush == IsEv("Flush") /\ Ev.res = "ok" /\ Flush /\ Obs
 T_Checkpoint == IsEv("Checkpoint") /\ Ev.res = "ok" /\ Checkpoint(Ev.obs.seq) /\ Obs
 T_Reopen == IsEv("Reopen") /\ Ev.res = "ok" /\ (\E trim \in BOOLEAN : Reopen(Ev.obs.seq, trim) /\ Obs)
@@ -49,6 +50,6 @@ T_Flip ==
           /\ ~(Ev.f \in DOMAIN files /\ Ev.b < FileSize(files[Ev.f]))
           /\ UNCHANGED wvars /\ Obs
 
-TNext == T_Fail \/ T_Reset \/ T_Append \/ T_Flush \/ T_Checkpoint \/ T_Reopen \/ T_Truncate \/ T_Flip
+TNext == T_Fail \/ T_Reset \/ T_Append \/ T_SetSync \/ T_Flush \/ T_Checkpoint \/ T_Reopen \/ T_Truncate \/ T_Flip
 TSpec == TInit /\ [][TNext]_tvars
 =============================================================================
